@@ -610,7 +610,7 @@ def r16_4(ctx):
     if not stores:
         ctx.violation(["tail-never-saved"], "the line that terminates a directive is never re-queued: it would be skipped", site=ctx.site(ri, heads[0]))
         return
-    reached = ri.reachable_from_edges(e, cut=out_edges(ri, stores) | none_e)
+    reached = C.after_edges(ri, e, cut=out_edges(ri, stores) | none_e)
     lost = [h for h in heads if h in reached]
     if lost:
         ctx.violation(["tail-lost"], "after executing a directive the line processor can fetch the next line without re-queuing the line that "
